@@ -223,7 +223,7 @@ def cosim_one(args):
     def fate(broker, ch, m):
         if not broker.channels[ch]['confirm']:
             return None
-        return {b'A': 'ack', b'N': 'nack', b'R': 'return-ack', b'C': 'close-channel'}[m.body[:1]]
+        return {b'A': 'ack', b'N': 'nack', b'R': 'return-ack', b'Q': 'return-nack', b'C': 'close-channel'}[m.body[:1]]
     policy.publish_fate = fate
 
     def scenario(ctx):
@@ -238,7 +238,7 @@ def cosim_one(args):
                     body = f.encode() + bytes([wi + 48]) + b'x' * size
                     want = {'A': True, 'N': False}.get(f)
                     try:
-                        r = chans[c].basic.publish(body, 'rk', mandatory=(f == 'R'))
+                        r = chans[c].basic.publish(body, 'rk', mandatory=(f in 'RQ'))
                         got = ('returned', r)
                     except amqpstorm.AMQPMessageError as why:
                         got = ('message-error', why.error_code)
@@ -248,7 +248,8 @@ def cosim_one(args):
                         got = ('connection-error', why.error_code)
                     if f in ('A', 'N'):
                         ok = got == ('returned', want) or (got[0] == 'channel-error' and chans[c].is_closed)
-                    elif f == 'R':
+                    elif f in 'RQ':
+                        # returned as unroutable (then acked or nacked): the mandatory publish raises the returned-message error
                         ok = got == ('message-error', 312) or (got[0] == 'channel-error' and chans[c].is_closed)
                     else:
                         ok = got[0] == 'channel-error' and (got[1] == 404 or got[1] is None or got[1] == 0)
@@ -314,7 +315,7 @@ def check(rep):
     jobs = []
     for _ in range(80 if not thorough else 2000):
         nchan = rng.randint(1, 2)
-        workers = [[(rng.randrange(nchan), rng.choice('AANRR' if rng.random() < 0.7 else 'AANRC'), rng.choice([0, 10, 5000]))
+        workers = [[(rng.randrange(nchan), rng.choice('AANRRQ' if rng.random() < 0.7 else 'AANRQC'), rng.choice([0, 10, 5000]))
                     for _ in range(rng.randint(1, 4))] for _ in range(rng.randint(1, 3))]
         jobs.append(({'nchan': nchan, 'workers': workers}, rng.randrange(1 << 30)))
     for (sc, seed), r in zip(jobs, par.pmap(cosim_one, jobs)):
